@@ -307,7 +307,10 @@ def dump_states(cfg_name, module="MC_Eco", timeout=2400):
         _copy_spec(d)
         cfg = strip_props(open(os.path.join(SPEC, "cfg", cfg_name + ".cfg")).read())
         open(os.path.join(d, module + ".cfg"), "w").write(cfg)
-        rc, out, wall = run_tlc(d, module + ".tla", ["-dump", os.path.join(d, "states")], timeout, workers=NCPU)
+        # MC_DataE hides the path (a history variable) behind the VIEW: only a strict breadth-first search
+        # (one worker) keeps the SHORTEST path of each state, and with it a deterministic depth-bounded set
+        rc, out, wall = run_tlc(d, module + ".tla", ["-dump", os.path.join(d, "states")], timeout,
+                                workers=1 if module == "MC_DataE" else NCPU)
         if "Model checking completed" not in out:
             raise Inconclusive("state dump of %s did not complete:\n%s" % (cfg_name, out[-1500:]))
         txt = open(os.path.join(d, "states.dump")).read()
